@@ -30,6 +30,8 @@ type helloJ struct {
 	Comp    string `json:"comp"`
 	HasExts bool   `json:"has_exts"`
 	Exts    []extJ `json:"exts"`
+	// raw bytes behind the last extension, inside the extension block (mutator only: never part of a case input)
+	ExtTail []byte `json:"-"`
 }
 
 func b2(v []int, i int) byte {
@@ -130,6 +132,7 @@ func encodeHello(h *helloJ) ([]byte, error) {
 					w.u8(e.Typ)
 					w.prefixed(2, func() { w.raw(body) })
 				}
+				w.raw(h.ExtTail)
 			})
 		})
 	})
